@@ -1,10 +1,8 @@
 package c11
 
 import (
-	"bytes"
 	"encoding/json"
 	"fmt"
-	"net/http/httptest"
 	"sort"
 	"strings"
 
@@ -30,28 +28,10 @@ type witness struct {
 	Detail  string  `json:"detail,omitempty"`
 }
 
+// send hands the request to the handler in its plain framing.
 func (e *env) send(q request) outcome {
-	target := davx.EscapePath(q.Path)
-	hr := httptest.NewRequest("PROPFIND", target, nil)
-	if q.Body != "" {
-		hr = httptest.NewRequest("PROPFIND", target, bytes.NewReader([]byte(q.Body)))
-	}
-	if q.CT != "" {
-		hr.Header.Set("Content-Type", q.CT)
-	}
-	if !q.NoDepth {
-		hr.Header.Set("Depth", q.Depth)
-	}
-	var out outcome
-	rec := httptest.NewRecorder()
-	var pv interface{}
-	out.panicked, pv, out.stack = fw.Guard(func() { e.h.ServeHTTP(rec, hr) })
-	if out.panicked {
-		out.Panic = fmt.Sprint(pv)
-	}
-	out.Status = rec.Code
-	out.Body = rec.Body.String()
-	return out
+	q.Framing = ""
+	return e.sendMem(q)
 }
 
 type checker struct {
@@ -115,12 +95,19 @@ func parseErrorClass(err error) string {
 	return "body-not-well-formed-namespace-correct-xml"
 }
 
-// run executes one request and applies the oracle.
-func (k *checker) run(q request) {
+// run executes one request in the plain framing and applies the oracle.
+func (k *checker) run(q request) outcome {
 	c, e := k.c, k.e
+	q.Framing = ""
 	c.Journal(witness{World: e.W, Request: q})
 	out := e.send(q)
 	c.JournalDone()
+	k.judge(q, out)
+	return out
+}
+
+func (k *checker) judge(q request, out outcome) {
+	c, e := k.c, k.e
 	c.Eval(1)
 	res := e.res[q.Target]
 	srv := e.W.Server
@@ -154,6 +141,19 @@ func (k *checker) run(q request) {
 				fmt.Sprintf("malformed body answered %d, want 4xx", out.Status), q, out, "")
 		}
 		return
+	case "near-empty":
+		// White space, an XML declaration or a BOM only: either "no document"
+		// (4xx) or "empty" (allprop); the statement does not decide.
+		c.Distinct(fmt.Sprintf("%s|%s|near-empty|%s|ct=%v", srv, res.Level, depthClass(q), q.CT != ""))
+		if out.Status >= 400 && out.Status <= 499 {
+			c.Observe("dont-care", fmt.Sprintf("body without a document -> %d", out.Status), 1)
+			return
+		}
+		if out.Status != 207 {
+			k.report(key(srv, res.Level, form, fmt.Sprintf("status-%d", out.Status)),
+				fmt.Sprintf("body holding no document answered %d, want 4xx or the allprop answer", out.Status), q, out, "")
+			return
+		}
 	}
 	if !validDepth(q) {
 		c.Distinct(fmt.Sprintf("%s|%s|%s|bad-depth", srv, res.Level, form))
@@ -391,7 +391,7 @@ func (k *checker) account(q request, out outcome, idx int, resp *davx.Response, 
 				k.report(key(srv, res.Level, form, "available-name-missing"), fmt.Sprintf("%s lacks %s which the resource's own propname answer lists", where, n), q, out, n)
 			}
 		}
-	case "allprop", "empty", "empty-xmlct":
+	case "allprop", "empty", "empty-xmlct", "near-empty":
 		for _, n := range order {
 			if len(answered[n]) > 1 {
 				k.report(key(srv, res.Level, form, "property-answered-twice"), fmt.Sprintf("%s answers %s %d times", where, n, len(answered[n])), q, out, n)
@@ -671,7 +671,8 @@ func runEnv(c *fw.Ctx, i int) {
 	}
 	for _, t := range targets {
 		for j := 0; j < perTarget; j++ {
-			k.run(genRequest(r, e, t))
+			q := genRequest(r, e, t)
+			k.framings(r, q, k.run(q))
 		}
 	}
 	for j := 0; j < extra; j++ {
@@ -679,7 +680,8 @@ func runEnv(c *fw.Ctx, i int) {
 		if e.res[t].Link {
 			t = e.res[t].Parent // links are judged as members, never addressed
 		}
-		k.run(genRequest(r, e, t))
+		q := genRequest(r, e, t)
+		k.framings(r, q, k.run(q))
 	}
 }
 
@@ -715,7 +717,10 @@ func c11Replay(c *fw.Ctx, raw json.RawMessage) {
 	// A finding of the reference stage is reproduced by asking for the
 	// reference; any other one by re-running the request.
 	k.reference(w.Request.Target)
-	k.run(w.Request)
+	base := k.run(w.Request)
+	if f := w.Request.Framing; f != "" {
+		k.framed(w.Request, base, f)
+	}
 }
 
 func init() {
@@ -726,7 +731,9 @@ func init() {
 		Rule: "worlds are drawn per index from (seed): file trees (webdav.Handler over LocalFileSystem on a generated directory - 70% of them with 1-4 symbolic links to directories, to files and dangling, relative targets inside the tree, at the top level and in sub-collections, named to sort among their siblings - and over the in-memory FS with arbitrary metadata), " +
 			"CalDAV/CardDAV backends with 0-5 collections x 0-6 objects with/without optional metadata under 6 prefixes, and ServePrincipal options; per world every level present is addressed " +
 			"6 times plus 12-24 random targets; each request draws Depth {0,1,infinity,absent,invalid}, a form {prop with 0-8 names from known+unknown+foreign+no-namespace pools with duplicates and shuffles, " +
-			"allprop, propname, empty body, empty body with XML Content-Type, none-of-the-three, foreign-namespace form element, malformed} and a random lexical rendering; " +
+			"allprop, propname, empty body, empty body with XML Content-Type, none-of-the-three, foreign-namespace form element, malformed, body of only white space / XML declaration / BOM} and a random lexical rendering; " +
+			"a quarter of the file-server member names look like implementation artefacts (.webdav-put-*, .DS_Store, .git, ~x, x~, .#x, #x#, lost+found, '...', '.. ', dot names, 150-200 byte names); " +
+			"every request without a document in its body is repeated in every in-process body framing (unknown length, one-byte reads, known length with a non-NoBody reader) and in two of four hand-written framings over a real TCP connection (Content-Length, no length header, chunked, one-byte chunks), 30% of the other requests in one framing, and the answer must equal the plain-framing answer; " +
 			"every resource answered about is first asked for its own Depth-0 propname and allprop (reference, also checked against the double's content). " +
 			"distinct_nontrivial counts distinct (server, level, form, depth class, name-class signature, scope size bucket) of requests that were decided.",
 		Assumptions: []string{
@@ -735,6 +742,8 @@ func init() {
 			"hrefs are compared after percent-decoding; file servers: dot segments resolved (RFC 3986) and a collection may carry or lack a trailing slash; CalDAV/CardDAV: the backend's own path exactly",
 			"don't-care: empty <prop/>; empty body with an XML Content-Type (400 or allprop); CalDAV/CardDAV root answered with a single response labelled with the request path or the principal's path for any Depth; invalid Depth on ServePrincipal (400 or Depth-0 answer)",
 			"symbolic links (fs-local): every directory entry of the addressed collection, whatever its kind, is a member in scope exactly once; how a link is described (file or collection, which properties and values) is don't-care (only the answer's own consistency is judged: each requested name once, 200 or 404, 404 empty); answers below a link to a directory are don't-care at Depth infinity; a dangling link may be listed or omitted; links are never addressed themselves",
+			"RFC 4918 section 9.1: the answer to a PROPFIND is a function of the request, not of how its body is framed (known or unknown length, chunk sizes, read granularity); a reader that returns (0, nil) before delivering is only used for bodies with content; a body of only white space, an XML declaration or a BOM may be refused (4xx) or taken as empty (allprop)",
+			"wire exchanges that fail as I/O (never seen) are inconclusive, not findings; no oracle depends on time",
 			"requested property elements are empty, so the prop and allprop values of one resource must coincide",
 			"Depth values used as valid are exactly 0, 1, infinity; invalid ones are clearly outside the grammar (no case or white-space variants)",
 		},
